@@ -385,6 +385,20 @@ pub fn run_backend<B: Backend>(rec: &mut Recorder, thorough: bool, seed: u64) {
             }
             offers.push(Offer { cls: "ed-public-half-off-curve", bytes: off });
             offers.push(Offer { cls: "ed-seed-only", bytes: a[..32].to_vec() });
+            // a valid key with bytes inserted between / before / after its halves: the halves are right, the length is not
+            for k in [1usize, 16, 32, 64] {
+                let junk = rng.bytes(k);
+                let mut mid = a[..32].to_vec();
+                mid.extend(&junk);
+                mid.extend(&a[32..]);
+                offers.push(Offer { cls: "ed-halves-with-inserted-bytes", bytes: mid });
+                let mut front = junk.clone();
+                front.extend(&a[..]);
+                offers.push(Offer { cls: "ed-halves-with-inserted-bytes", bytes: front });
+                let mut back = a.to_vec();
+                back.extend(&junk);
+                offers.push(Offer { cls: "ed-halves-with-inserted-bytes", bytes: back });
+            }
             for s in [vec![0u8; 32], vec![0xffu8; 32]] {
                 let mut k = s.clone();
                 k.extend(ed_pub_of_seed(fam, &s));
